@@ -177,8 +177,21 @@ def brute_force_log_mass(cc: Any, num_vars: int, k: int, semiring: str) -> torch
     raise HarnessError("brute force mass only for real semirings")
 
 
+# How circuits are evaluated by the harness: under ``torch.no_grad()`` (default), under
+# ``torch.inference_mode()`` or with autograd recording.  A world may switch it (operation
+# ``mode``); every run resets it.  What a circuit computes must not depend on it.
+GRAD_MODE = "no_grad"
+
+
 def evaluate(cc: Any, X: np.ndarray | None) -> torch.Tensor:
+    x = None if X is None else torch.from_numpy(X)
+    if GRAD_MODE == "enabled":
+        with torch.enable_grad():
+            y = cc() if x is None else cc(x)
+        return y.detach()
+    if GRAD_MODE == "inference":
+        with torch.inference_mode():
+            y = cc() if x is None else cc(x)
+        return y.clone()
     with torch.no_grad():
-        if X is None:
-            return cc()
-        return cc(torch.from_numpy(X))
+        return cc() if x is None else cc(x)
